@@ -1225,7 +1225,7 @@ class Bag(DaskMethodsMixin):
         dsk = {
             (name, i * m + j): (
                 list,
-                (itertools.product, (self.name, i), (other.name, j)),
+                (_product, (self.name, i), (other.name, j)),
             )
             for i in range(n)
             for j in range(m)
@@ -2374,6 +2374,13 @@ def _reduce(binop, sequence, initial=no_default):
         return reduce(binop, sequence, initial)
     else:
         return reduce(binop, sequence)
+
+
+def _product(a, b):
+    if a is b:
+        # the same (possibly lazily evaluated) partition on both sides
+        a = b = list(a)
+    return itertools.product(a, b)
 
 
 def _reduce_partials(combine, partials, initial):
